@@ -765,7 +765,10 @@ impl From<Ct> for u16 {
 
 #[derive(Default)]
 pub struct RecHasher {
+    /// the exact sequence of calls
     pub rec: String,
+    /// the bytes a hasher with the default `write_*` forwarding would receive, flattened (hex)
+    pub flat: String,
 }
 
 impl RecHasher {
@@ -778,6 +781,9 @@ macro_rules! rec_write {
     ($($f:ident: $t:ty),*) => {$(
         fn $f(&mut self, i: $t) {
             self.rec.push_str(&format!("{}({});", &stringify!($f)[6..], i));
+            for b in i.to_ne_bytes() {
+                self.flat.push_str(&format!("{b:02x}"));
+            }
         }
     )*};
 }
@@ -795,8 +801,20 @@ impl Hasher for RecHasher {
         self.rec.push_str("b(");
         for b in bytes {
             self.rec.push_str(&format!("{b:02x}"));
+            self.flat.push_str(&format!("{b:02x}"));
         }
         self.rec.push_str(");");
+    }
+}
+
+/// flattened bytes of the hash input (what any hasher using the default integer forwarding sees)
+pub fn flat_hash<X: Hash + ?Sized>(x: &X) -> String {
+    let mut h = RecHasher::new();
+    x.hash(&mut h);
+    if h.flat.is_empty() {
+        "~".to_string()
+    } else {
+        h.flat
     }
 }
 
@@ -849,6 +867,43 @@ pub fn drive_eq<X: PartialEq>(case: &str, n: usize, mk: &dyn Fn(usize, u8) -> X)
     }
 }
 
+/// a value compared with itself *by address* (the same object on both sides)
+pub fn drive_eq_self<X: PartialEq>(case: &str, n: usize, mk: &dyn Fn(usize, u8) -> X) {
+    for i in 0..n {
+        let a = mk(i, 0);
+        begin();
+        let r = a == a;
+        let r2 = a != a;
+        let e = take();
+        line(case, "eqself", i, i as isize, &format!("{}{}", r as u8, r2 as u8), &e);
+    }
+}
+
+pub fn drive_cmp_self<X: Ord>(case: &str, n: usize, mk: &dyn Fn(usize, u8) -> X) {
+    for i in 0..n {
+        let a = mk(i, 0);
+        begin();
+        let r = a.cmp(&a);
+        let e = take();
+        line(case, "cmpself", i, i as isize, ord_s(r), &e);
+    }
+}
+
+pub fn drive_pcmp_self<X: PartialOrd>(case: &str, n: usize, mk: &dyn Fn(usize, u8) -> X) {
+    for i in 0..n {
+        let a = mk(i, 0);
+        begin();
+        let r = a.partial_cmp(&a);
+        let e = take();
+        line(case, "pcmpself", i, i as isize, r.map(ord_s).unwrap_or("N"), &e);
+    }
+}
+
+/// address and size of the referent, without any deref coercion at the call site
+pub fn addr_size<X: ?Sized>(r: &X) -> (usize, usize) {
+    (r as *const X as *const u8 as usize, ::std::mem::size_of_val(r))
+}
+
 pub fn drive_cmp<X: Ord>(case: &str, n: usize, mk: &dyn Fn(usize, u8) -> X) {
     for i in 0..n {
         for j in 0..n {
@@ -888,7 +943,9 @@ pub fn drive_hash<X: Hash>(
             begin();
             let want = reference(&a);
             let _ = take();
-            line(case, "hash", i, side as isize, &format!("{r}\t{want}"), &e);
+            let flat = flat_hash(&a);
+            let _ = take();
+            line(case, "hash", i, side as isize, &format!("{r}\t{want}\t{flat}"), &e);
         }
     }
 }
